@@ -70,7 +70,12 @@ into errors, interlaced PNG labels, template placeholders such as `{gfx}` in cod
 included carts with multi-line tokens, helper functions named like game-loop functions (`_draw_hud`), `end;` after a game-loop
 function, load path patterns with `..`, a transforming writer run before the default writer on the same object, regions longer
 than their memory-map slot, redundant parentheses in the tree, the version byte / last row of the picture, keep-file lines with
-blanks, labels no goto refers to, API names used as field names, the escape \\255, comments before commas in luafmt.
+blanks, labels no goto refers to, API names used as field names, the escape \\255, comments before commas in luafmt,
+`__meta:title__` sections, section objects made for another version, pictures lying next to the destination, worker threads,
+a closed output stream, blanks around path strings, a lower-case twin directory, a same-named cart in the other format next to
+OUT, sections taken from a cart in another directory, file-name pattern characters in include names, a cart including its own
+tab, names made of a keyword plus a glyph, `_ENV`, the order in which a tree walker visits operands, form feed / vertical tab,
+title comment lines moved by build, numerals directly followed by keywords.
 Look for something else, for example: a mask, shift or bit position that is off by one; signed/unsigned or 7-bit/8-bit handling;
 an inclusive/exclusive range end; integer division or rounding; the order in which two sections / options / passes are applied;
 an interaction between two command-line options or two library features that are each fine alone; a module-level table or
